@@ -9,6 +9,7 @@ into its own enum must be accepted. Casts distinct <-> underlying are compiled, 
 import json
 import os
 import re
+import shutil
 import time
 
 from .. import common as C
@@ -21,8 +22,9 @@ RULE = ("universe: for each of 15 primitive bases B two wrappers `distinct B` an
         "in both operand orders (for the underlying type the result is pinned: `r : E = e + p`). thorough = every in-family pair x every form + every "
         "cross-family pair in one form; quick = must-see core + random sample. Positive cases: same type, literal into distinct, variant into own enum. "
         "Cast programs are run. A case is non-trivial when it reached a verdict; distinct = distinct (form, kind of E, kind of P, relation) tuples")
-ASSUME = ["NOT constrained (never judged): a value of the plain underlying type flowing into a distinct (incl. a variant flowing into a distinct of its own enum, "
-          "which capy accepts), an anonymous struct literal into a named struct, a distinct where the underlying of its underlying is expected",
+ASSUME = ["NOT constrained (never judged): a value of the underlying type flowing into its distinct wrapper (plain i32 -> distinct i32, named struct S1 -> distinct S1 and a "
+          "variant -> distinct of its own enum are accepted by capy, D -> distinct D is rejected), an anonymous struct literal into a named struct, a distinct where the "
+          "underlying of its underlying is expected, `==`/`+` between two variants of the SAME enum (both convert to their own enum, the allowed conversion)",
           "`==` between two payload-less variants is not judged: capy types both operands as `type` values (zero-sized variant == its type), and `type` is neither a nominal "
           "type nor an underlying type",
           "binary operations with the plain underlying type are judged only with the result pinned to the underlying type (`r : i32 = i + d`), otherwise "
@@ -561,7 +563,7 @@ def replay(path):
         for v in vs:
             print(v["what"])
         bad = bool(vs)
-    C.clean_work("C13")
+    shutil.rmtree(work, ignore_errors=True)
     if bad:
         print(f"VIOLATION property=C13 replay={path}")
         print(f"  {w.get('key')}: {w.get('what')}")
